@@ -79,8 +79,8 @@ def enumerate_cases(tier, seed):
           "alpha": [None, "auto", "auto_po2", 1.0, 0.5, 2.0],
           "scale_axis": _axes_for_rank(rank),
           "eps": [None, 1, 2, [2, 2]],
-          "min_po2": [None, -2, 0, 2],
-          "max_po2": [None, -2, 0, 2],
+          "min_po2": [None, -2, 0, 2, -40],      # -40 / 40: bounds that are configured but do not bind
+          "max_po2": [None, -2, 0, 2, 40],
       }
       for c in common.dev_product(axes, k, lambda c, s=shape: _valid_binary(c, s)):
         out.append(dict(cls="binary", rank=rank, fam=fam, **c))
@@ -101,6 +101,14 @@ def enumerate_cases(tier, seed):
             if not isinstance(alpha, str) and unr != 5:
               continue
             out.append(dict(cls="ternary", rank=rank, fam=fam, alpha=alpha, threshold=thr, unrolls=unr))
+  # history on the process-wide image data format: a quantizer is used while the format is channels_first, the format is
+  # switched back, and only then the quantizer under test is built and used - it must follow the CURRENT format
+  for c in list(out):
+    if isinstance(c["alpha"], str) and c["rank"] >= 2 and c.get("scale_axis") is None and c.get("eps") is None \
+        and c.get("min_po2") is None and c.get("max_po2") is None and c.get("threshold") is None:
+      out.append(dict(c, after_channels_first=True))
+      # ... and the quantizer used WHILE the format is channels_first: one scale per index of axis 0
+      out.append(dict(c, data_format="channels_first"))
   seen, uniq = set(), []
   for c in out:
     key = repr(sorted(c.items(), key=lambda kv: kv[0]))
@@ -189,7 +197,17 @@ def run_case(cfg):
   digests = []
   saw = set()
   scales_differ = False
-  for pattern in common.PATTERNS:
+  cf = cfg.get("data_format") == "channels_first"
+  if cf:
+    tf.keras.backend.set_image_data_format("channels_first")     # (reset_keras at the start of every case restores it)
+  if cfg.get("after_channels_first"):
+    K = tf.keras.backend
+    K.set_image_data_format("channels_first")
+    try:
+      make(cfg)(tf.constant(common.tensor(shape, "grid7", seed)))
+    finally:
+      K.set_image_data_format("channels_last")
+  for pattern in common.PATTERNS + ["ladder_a", "ladder_b"]:
     x = common.tensor(shape, pattern, seed)
     q = make(cfg)
     y = np.asarray(q(tf.constant(x)), dtype=np.float32)
@@ -231,7 +249,7 @@ def run_case(cfg):
       if wrong.any():
         i = np.unravel_index(int(np.flatnonzero(wrong.reshape(-1))[0]), shape)
         bad("sign", "x=%r got code %r (%s)" % (float(x[i]), float(c[i]), pattern), pattern=pattern)
-      gid_thr = common.group_ids(shape, None, None) if len(shape) > 1 else np.zeros(shape, dtype=np.int64)
+      gid_thr = common.group_ids(shape, 0 if cf else None, None) if len(shape) > 1 else np.zeros(shape, dtype=np.int64)
       for g in np.unique(gid_thr):
         m = (gid_thr == g) & (scale_b > 0)
         z, nz = np.abs(x64[m & (c == 0)]), np.abs(x64[m & (c != 0)])
@@ -255,9 +273,9 @@ def run_case(cfg):
       if len(shape) == 1:
         gid = np.arange(shape[0])
       elif cfg["cls"] == "binary":
-        gid = common.group_ids(shape, cfg["scale_axis"], cfg["eps"])
+        gid = common.group_ids(shape, 0 if (cf and cfg["scale_axis"] is None) else cfg["scale_axis"], cfg["eps"])
       else:
-        gid = common.group_ids(shape, None, None)
+        gid = common.group_ids(shape, 0 if cf else None, None)
       evals += check_ls(cfg, x64, c, scale_b, gid, bad, pattern)
       if len(np.unique(scale_b)) > 1:
         scales_differ = True
@@ -265,7 +283,8 @@ def run_case(cfg):
   need = {0.0, 1.0} if (cfg["cls"] == "binary" and cfg["use_01"]) else (
       {-1.0, 1.0} if cfg["cls"] == "binary" else {-1.0, 0.0, 1.0})
   nontrivial = int(need <= saw and (scales_differ or not auto))
-  return {"evals": evals, "transitions": len(common.PATTERNS), "nontrivial": nontrivial,
+  tf.keras.backend.set_image_data_format("channels_last")
+  return {"evals": evals, "transitions": len(common.PATTERNS) + 2, "nontrivial": nontrivial,
           "state": repr(sorted(cfg.items(), key=lambda kv: kv[0])), "digest": common.digest(*digests),
           "violations": viol, "traces": len(common.PATTERNS),
           "sample": {"cfg": cfg, "shape": list(shape), "patterns": common.PATTERNS}}
